@@ -272,6 +272,17 @@ func pFunc(f func() int, s []int) int { return 3 }
 //go:noinline
 func pShaped(v corpus.S1P, n corpus.S1N) int { return 4 }
 
+//go:noinline
+func pIface(v interface{}, w interface{}) int { ifaceSink = v; return 5 }
+
+var ifaceSink interface{}
+
+// values of different dynamic types that the runtime boxes at shared addresses (zero-size values, empty strings, nil slices)
+type keyA struct{}
+type keyB struct{}
+type nameA string
+type nameB string
+
 type whenCase struct {
 	Target string `json:"target"`
 	Kind   string `json:"kind"`
@@ -324,6 +335,20 @@ func runWhen(ci interface{}, s *vkit.Stats) error {
 			b.Func(pShaped).Return(-1).When(pat, corpus.S1N{}).Return(100)
 			got = pShaped(real, corpus.S1N{})
 			miss = pShaped(corpus.S1P{P: &y}, corpus.S1N{})
+		})
+	case "pIface":
+		// the dynamic type of a condition value for an interface-typed parameter is part of the value: an argument of another
+		// dynamic type is a different argument, also when both are zero-size / empty / nil and share their storage
+		pairs := [][2]interface{}{{keyA{}, keyB{}}, {nameA(""), nameB("")}, {[]int(nil), []string(nil)}, {[0]int{}, [0]string{}}, {nameA("x"), nameB("x")}, {keyA{}, struct{}{}}}
+		pr := pairs[int(c.Code)%len(pairs)]
+		same, other := pr[0], pr[1]
+		if c.Kind == "swapped" {
+			same, other = other, same
+		}
+		pv = guard(func() {
+			b.Func(pIface).Return(-1).When(same, 1).Return(100)
+			got = pIface(same, 1)
+			miss = pIface(other, 1)
 		})
 	default:
 		pv = guard(func() {
@@ -659,8 +684,9 @@ func TestVerifC09(t *testing.T) {
 	}
 	w := &vkit.Prop{ID: "C09", Unit: "conditions", New: func() interface{} { return &whenCase{} },
 		Gen: func(rt *rapid.T) interface{} {
-			tg := rapid.SampledFrom([]string{"pPtr", "pStruct", "pFunc", "pShaped"}).Draw(rt, "target")
-			kinds := map[string][]string{"pPtr": {"ordinary", "untyped-nil", "typed-nil", "standin-ptr"}, "pStruct": {"ordinary", "standin"}, "pFunc": {"untyped-nil"}, "pShaped": {"ordinary", "standin"}}
+			tg := rapid.SampledFrom([]string{"pPtr", "pStruct", "pFunc", "pShaped", "pIface", "pIface"}).Draw(rt, "target")
+			kinds := map[string][]string{"pPtr": {"ordinary", "untyped-nil", "typed-nil", "standin-ptr"}, "pStruct": {"ordinary", "standin"}, "pFunc": {"untyped-nil"}, "pShaped": {"ordinary", "standin"},
+				"pIface": {"as-given", "swapped"}}
 			return &whenCase{Target: tg, Kind: rapid.SampledFrom(kinds[tg]).Draw(rt, "kind"), Code: uint64(rapid.IntRange(0, 1000).Draw(rt, "code"))}
 		},
 		Run: runWhen}
